@@ -257,10 +257,10 @@ Record pj_comp (c c' : connp) (s : option tx) : Prop := mk_pj_comp {
 
 Lemma pj_response_complete c d rd p prev t : pj_cin c d rd p None RES_FINALIZE prev None t ->
   t_res_cep t = c_HTP_COMPRESSION_NONE -> (t_response_transfer_coding t =? c_HTP_CODING_NO_BODY)%Z = false ->
-  (t_response_progress t =? c_HTP_RESPONSE_COMPLETE)%Z = false -> t_request_progress t = c_HTP_REQUEST_COMPLETE ->
+  (t_response_progress t =? c_HTP_RESPONSE_COMPLETE)%Z = false ->
   exists c', rs_response_complete cb g c = (ST_OK, c') /\ pj_comp c c' (Some (sr_tcomplete t)).
 Proof.
-  intros H0 Hcep Hcod Hprog Hreq. rename c into c0.
+  intros H0 Hcep Hcod Hprog. rename c into c0.
   unfold rs_response_complete. rewrite (ji_tx _ _ _ _ _ _ _ _ _ H0). unfold tx_state_response_complete_ex.
   rewrite (pj_tx_get c0 d _ _ _ _ _ _ _ H0), Hprog. cbn [negb].
   rewrite (pj_tx_upd0 c0 d _ _ _ _ _ _ t _ H0).
@@ -274,21 +274,14 @@ Proof.
   set (c3 := wr_hook_ev H_RESPONSE_COMPLETE (pj_k w) None false c2).
   assert (H3 : pj_cin c3 d rd p None RES_FINALIZE prev None (sr_tcomplete t)) by (apply pj_cin_hook; exact H2).
   rewrite (ji_rh _ _ _ _ _ _ _ _ _ H3).
+  (* the request side is not waiting *)
   assert (Ew : (c_in_status c3 =? c_HTP_STREAM_DATA_OTHER)%Z &&
                match c_in_tx c3, c_out_tx c3 with Some a, Some b => (a =? b)%nat | None, None => true | _, _ => false end = false).
-  { rewrite (ji_tx _ _ _ _ _ _ _ _ _ H3). pose proof (ji_intx _ _ _ _ _ _ _ _ _ H3) as Hi. destruct (c_in_tx c3) as [a|]; [|apply andb_false_r].
-    assert (En : (a =? pj_k w)%nat = false) by (apply Nat.eqb_neq; intro E; apply Hi; rewrite E; reflexivity). rewrite En. apply andb_false_r. }
+  { rewrite (ji_intx _ _ _ _ _ _ _ _ _ H3). reflexivity. }
   rewrite Ew. cbn [negb andb].
   rewrite (ji_other _ _ _ _ _ _ _ _ _ H3).
-  unfold tx_finalize. rewrite (pj_cin_slot _ _ _ _ _ _ _ _ _ H3).
-  assert (Ec : tx_is_complete (sr_tcomplete t) = true).
-  { unfold tx_is_complete. change (t_request_progress (sr_tcomplete t)) with (t_request_progress t). rewrite Hreq. reflexivity. }
-  rewrite Ec. cbn [negb]. unfold run_hook_ex. rewrite Hcb.
-  set (c4 := emit (bump_hook c3 H_TRANSACTION_COMPLETE) (mkev H_TRANSACTION_COMPLETE (pj_k w) None false (Some (sr_tcomplete t)))).
-  assert (H4 : pj_cin c4 d rd p None RES_FINALIZE prev None (sr_tcomplete t)) by (apply (pj_cin_ext c3); try reflexivity; exact H3).
-  rewrite (pj_cin_slot _ _ _ _ _ _ _ _ _ H4), Had.
-  (* c4 differs from c0 in the transaction list, the event log and the call counters only *)
-  assert (F4 : c_out c4 = c_out c0 /\ c_out_status c4 = c_out_status c0 /\ c_out_state_previous c4 = c_out_state_previous c0).
+  (* c3 differs from c0 in the transaction list, the event log and the call counters only *)
+  assert (F3 : c_out c3 = c_out c0 /\ c_out_status c3 = c_out_status c0 /\ c_out_state_previous c3 = c_out_state_previous c0).
   { assert (F2 : c_out c2 = c_out c1 /\ c_out_status c2 = c_out_status c1 /\ c_out_state_previous c2 = c_out_state_previous c1).
     { revert E2. unfold rs_process_body. rewrite (ji_tx _ _ _ _ _ _ _ _ _ H1). unfold tx_res_process_body_data_ex.
       rewrite (pj_tx_upd0 c1 d _ _ _ _ _ _ t1 _ H1).
@@ -306,14 +299,28 @@ Proof.
         rewrite G1, G2, G3. repeat split. }
       cbn [wr_hook_ev emit bump_hook c_out c_out_status c_out_state_previous set].
       destruct (G (t_hook_response_body (tx_get cB (pj_k w))) cB) as (G1 & G2 & G3). cbn. rewrite G1, G2, G3. repeat split. }
-    destruct F2 as (G1 & G2 & G3). unfold c4, c3. cbn [wr_hook_ev emit bump_hook c_out c_out_status c_out_state_previous set]. cbn. rewrite G1, G2, G3. repeat split. }
-  destruct F4 as (O4 & S4 & P4).
-  eexists. split; [reflexivity|].
-  constructor; cbn [c_txs c_out c_out_status c_out_state_previous c_out_state c_out_tx c_out_next_tx_index c_txs_shifted c_in_tx c_out_data_other_at_tx_end set]; try assumption; try reflexivity.
-  - exact (ji_txs _ _ _ _ _ _ _ _ _ H4).
-  - exact (ji_next _ _ _ _ _ _ _ _ _ H4).
-  - exact (ji_shift _ _ _ _ _ _ _ _ _ H4).
-  - change (pj_qin c4 = pj_qin c0). rewrite (ji_in _ _ _ _ _ _ _ _ _ H4), (ji_in _ _ _ _ _ _ _ _ _ H0). reflexivity.
-  - exact (ji_other _ _ _ _ _ _ _ _ _ H4).
+    destruct F2 as (G1 & G2 & G3). unfold c3. cbn [wr_hook_ev emit bump_hook c_out c_out_status c_out_state_previous set]. cbn. rewrite G1, G2, G3. repeat split. }
+  (* what is left once htp_tx_finalize is through *)
+  assert (Fin : forall cX, pj_cin cX d rd p None RES_FINALIZE prev None (sr_tcomplete t) ->
+                  c_out cX = c_out c0 -> c_out_status cX = c_out_status c0 -> c_out_state_previous cX = c_out_state_previous c0 ->
+                  pj_comp c0 (cX <| c_out_tx := None |> <| c_out_state := RES_IDLE |>) (Some (sr_tcomplete t))).
+  { intros cX HX O4 S4 P4.
+    constructor; cbn [c_txs c_out c_out_status c_out_state_previous c_out_state c_out_tx c_out_next_tx_index c_txs_shifted c_in_tx c_out_data_other_at_tx_end set]; try assumption; try reflexivity.
+    - exact (ji_txs _ _ _ _ _ _ _ _ _ HX).
+    - exact (ji_next _ _ _ _ _ _ _ _ _ HX).
+    - exact (ji_shift _ _ _ _ _ _ _ _ _ HX).
+    - change (pj_qin cX = pj_qin c0). rewrite (ji_in _ _ _ _ _ _ _ _ _ HX), (ji_in _ _ _ _ _ _ _ _ _ H0). reflexivity.
+    - exact (ji_other _ _ _ _ _ _ _ _ _ HX). }
+  destruct F3 as (O3 & S3 & P3).
+  unfold tx_finalize. rewrite (pj_cin_slot _ _ _ _ _ _ _ _ _ H3).
+  destruct (tx_is_complete (sr_tcomplete t)) eqn:Ec; cbn [negb].
+  - (* the request is complete as well: the transaction is *)
+    unfold run_hook_ex. rewrite Hcb.
+    set (c4 := emit (bump_hook c3 H_TRANSACTION_COMPLETE) (mkev H_TRANSACTION_COMPLETE (pj_k w) None false (Some (sr_tcomplete t)))).
+    assert (H4 : pj_cin c4 d rd p None RES_FINALIZE prev None (sr_tcomplete t)) by (apply (pj_cin_ext c3); try reflexivity; exact H3).
+    rewrite (pj_cin_slot _ _ _ _ _ _ _ _ _ H4), Had.
+    eexists. split; [reflexivity|]. apply (Fin c4 H4); [exact O3|exact S3|exact P3].
+  - (* the request is still in htp_connp_REQ_FINALIZE: htp_tx_finalize does nothing *)
+    eexists. split; [reflexivity|]. apply (Fin c3 H3); [exact O3|exact S3|exact P3].
 Qed.
 End Tail.
